@@ -663,9 +663,13 @@ type updWorld struct {
 	stats  map[string]int
 }
 
+// updFacts: how SelectorMatch of the tree under test behaves (probed once per test run)
+var updFacts = h.UpdSelFacts{NilPanics: true}
+
 func newUpdWorld(r *h.Report, d *h.Driver) *updWorld {
 	w := &updWorld{r: r, d: d, shapes: map[string]*h.UpdShape{}, fns: map[string]bool{}, genFns: map[string]bool{}, jsonOK: map[string]bool{}, stats: map[string]int{}}
 	for _, s := range h.UpdShapes() {
+		s.Resolve(updFacts)
 		w.shapes[s.Name] = s
 		w.order = append(w.order, s.Name)
 	}
@@ -1770,6 +1774,89 @@ var updRepresentative = []string{
 	"NodeManagementDestinationListDataType",             // no identifier at all
 }
 
+// updCheckClassification ties the classification of selector fields to both sides before anything is generated:
+// (1) the model's selMap as the driver derives it (Spine.Tables.selMapFor of the type facts and the probed flags) must be
+// the one Resolve computed for the generator and the monitor; (2) the real FilterData.SelectorMatch, called on codec
+// values, must behave for every selector field of every list type as its SelKind says: same value / other value /
+// item field nil -> match, no match or panic.
+func updCheckClassification(w *updWorld, shapes []*h.UpdShape) {
+	outcome := func(f func() bool) string {
+		res := ""
+		if pan := h.Recover(func() { res = map[bool]string{true: "match", false: "no-match"}[f()] }); pan != nil {
+			return "panic"
+		}
+		return res
+	}
+	kinds := map[string]int{}
+	for _, s := range shapes {
+		if s.SelT == nil {
+			continue
+		}
+		if got, want := w.ask(s, "selmap?"), "selmap "+strings.ReplaceAll(updItemS(updItem(s.SelMap)), "-1", "-"); got != want {
+			w.r.Mismatch([]string{s.Line()}, want, got, "selMap of "+s.Name+": harness (Resolve) vs driver (Spine.Tables.selMapFor)")
+		}
+		for j, kind := range s.SelKind {
+			kinds[s.SelType[j]+"->"+kind]++
+			if s.SelT.Field(j).Type.Kind() != reflect.Ptr && s.SelT.Field(j).Type.Kind() != reflect.Slice {
+				continue
+			}
+			itemField := -1
+			if f, ok := s.ItemT.FieldByName(s.SelNames[j]); ok {
+				itemField = f.Index[0]
+			}
+			c := newUpdCodec()
+			sel := make(updItem, len(s.SelType))
+			for x := range sel {
+				sel[x] = -1
+			}
+			sel[j] = 1
+			ft := c.filter(s, false, updFilter{kind: 'F', sel: sel})
+			fd, err := ft.Data()
+			if err != nil {
+				panic(err)
+			}
+			mk := func(v int) reflect.Value {
+				a := make(updItem, s.N)
+				for x := range a {
+					a[x] = -1
+				}
+				if itemField >= 0 {
+					a[itemField] = v
+				}
+				it := c.item(s, a)
+				p := reflect.New(s.ItemT)
+				p.Elem().Set(it)
+				return p
+			}
+			same, other, absent := mk(1), mk(2), mk(-1)
+			got := outcome(func() bool { return fd.SelectorMatch(same.Interface()) }) + "," +
+				outcome(func() bool { return fd.SelectorMatch(other.Interface()) }) + "," +
+				outcome(func() bool { return fd.SelectorMatch(absent.Interface()) })
+			onNil := "no-match"
+			if updFacts.NilPanics {
+				onNil = "panic"
+			}
+			want := map[string]string{
+				h.SelIgnored:       "match,match,match",
+				h.SelEq:            "match,no-match," + onNil,
+				h.SelNever:         "no-match,no-match," + onNil,
+				h.SelPanics:        "panic,panic,panic",
+				h.SelAbsent:        "no-match,no-match,no-match",
+				h.SelPresentPanics: "panic,panic,no-match",
+			}[kind]
+			if s.ItemT.NumField() > 0 && itemField >= 0 && s.ItemT.Field(itemField).Type.Elem().Size() == 0 && kind == h.SelEq {
+				want = "match,match," + onNil // a zero-size value has one value only
+			}
+			if got != want {
+				w.r.Mismatch([]string{fmt.Sprintf("SelectorMatch of %s.%s on an item with the field = same value, other value, nil", s.SelField, s.SelNames[j])},
+					got, want, fmt.Sprintf("selector field %s.%s is classified %s/%s on this tree (nilPanics=%v structDeep=%v) but the real SelectorMatch behaves differently", s.SelField, s.SelNames[j], s.SelType[j], kind, updFacts.NilPanics, updFacts.StructDeep))
+			}
+			w.r.Eval("selector-field-probe", "")
+		}
+	}
+	w.r.Info["selector_field_classification"] = kinds
+}
+
 // ---------------------------------------------------------------- the test
 
 func TestUpdate(t *testing.T) {
@@ -1784,6 +1871,13 @@ func TestUpdate(t *testing.T) {
 	}
 	r.Info["engine_member"] = cfgLine
 	r.Info["engine_flags_probed"] = engineFlags
+	deep, deepDetail := updProbeStructDeep()
+	updFacts = h.UpdSelFacts{NilPanics: engineFlags["selNilPanics"], StructDeep: deep}
+	if ans := d.Ask(fmt.Sprintf("selfacts %d", h.B2i(deep))); ans != "selfacts-ok" {
+		t.Fatalf("driver refused selfacts: %s", ans)
+	}
+	r.SetFlag("selNilPanics", updFacts.NilPanics, nil, "selected item field nil or not a pointer: SelectorMatch panics (on) / no match (off); probed by update_flags_test.go")
+	r.SetFlag("structDeep", deep, nil, deepDetail)
 	w := newUpdWorld(r, d)
 	defer w.teardown()
 	w.base = h.Baseline()
@@ -1801,6 +1895,7 @@ func TestUpdate(t *testing.T) {
 		}
 		usable = append(usable, s)
 	}
+	updCheckClassification(w, usable)
 	r.Info["list_types"] = len(w.order)
 	r.Info["list_types_driven"] = len(usable)
 	r.Info["list_types_skipped"] = skipped
@@ -1841,6 +1936,21 @@ func TestUpdate(t *testing.T) {
 			}
 			r.SpecFail("C02/wiring-"+x+":"+recv, []string{"wiring row of (*" + recv + ").UpdateList"}, fmt.Sprintf("the UpdateList method of %s is not wired like the others: %s", recv, x))
 		}
+	}
+	// selectors on address-typed fields (non-comparable struct: ClientAddress of a binding entry; comparable struct
+	// holding a pointer: DeviceAddress of a device description), equal to a stored item's value: panic / never a
+	// match / the matching item is deleted resp. updated, depending on the SelectorMatch of the tree (probed)
+	if s := w.shapes["BindingManagementEntryListDataType"]; s != nil && len(s.Problems) == 0 && s.N == 5 && len(s.SelType) == 3 {
+		w.runUpdOps([]string{"case BindingManagementEntryListDataType direct r=0 p=1 old=0,1,2,-,-;1,2,1,-,- new=. fp=N fd=F:-,1,-:N"})
+		w.runUpdOps([]string{"case BindingManagementEntryListDataType direct r=0 p=1 old=0,1,2,-,-;1,2,1,-,- new=-,-,-,1,- fp=F:-,-,1:N fd=N"})
+		w.runUpdOps([]string{"case BindingManagementEntryListDataType direct r=0 p=1 old=0,-,2,-,-;1,2,1,-,- new=. fp=N fd=F:-,2,-:N"})
+	}
+	if s := w.shapes["NetworkManagementDeviceDescriptionListDataType"]; s != nil && len(s.Problems) == 0 && s.N == 11 && len(s.SelType) == 2 {
+		sel := "1,-"
+		if s.SelKind[0] == h.SelNever {
+			sel = "1001,-"
+		}
+		w.runUpdOps([]string{"case NetworkManagementDeviceDescriptionListDataType direct r=0 p=1 old=0,1,-,-,-,-,-,-,-,-,-;1,2,-,-,-,-,-,-,-,-,- new=. fp=N fd=F:" + sel + ":N"})
 	}
 	lc := "LoadControlLimitListDataType"
 	w.runUpdOps([]string{"hist " + lc + " fd", "step r=0 p=1 new=2,1,-,-,-;1,1,-,-,- fp=N fd=N"})
@@ -1937,7 +2047,12 @@ func TestUpdate(t *testing.T) {
 		}
 		r.Floor("local persisting updates the SPEC decides", w.stats["spec:decided"], local, 0.4)
 		r.Floor("decided updates checked for idempotence", w.stats["spec:idempotence-checked"], w.stats["spec:decided"], 0.8)
-		r.Floor("panics predicted by the model (at least some)", panN, total, 0.005)
+		if updFacts.NilPanics || engineFlags["emptySelPanics"] {
+			// only a tree that still has one of the frequent panic sites of the engine owes the run panics
+			r.Floor("panics predicted by the model (at least some)", panN, total, 0.005)
+		} else {
+			r.Info["panics_predicted_and_observed"] = panN
+		}
 		for _, sh := range updShapesAll {
 			n := 0
 			for k, c := range r.Dist {
